@@ -323,6 +323,19 @@ func (c *Client) sendRecv(tm message, rm message) error {
 	err := send(c.log, c.conn, tag(t), tm)
 	c.sendMu.Unlock()
 	if err != nil {
+		// Nobody will wait for this response: withdraw it before it goes
+		// back to the pool, or a later failure broadcast would be sent
+		// to a response that by then belongs to another call (or to none,
+		// blocking the broadcaster for good).
+		c.pendingMu.Lock()
+		if c.pending[tag(t)] == resp {
+			delete(c.pending, tag(t))
+		}
+		select {
+		case <-resp.done:
+		default:
+		}
+		c.pendingMu.Unlock()
 		return fmt.Errorf("send: %w", err)
 	}
 
